@@ -120,7 +120,10 @@ Accept(e) ==
     CASE e.ev = "RoundTrip" -> (Prop = "C01" => OK01(e))
       [] e.ev = "Lens"      -> (Prop = "C02" => OK02(e))
       [] e.ev = "LensShape" -> (Prop = "C02" => OK02Shape(e))
-      [] e.ev = "BigShape"  -> (Prop = "C01" => BigEncOK(e) /\ BigDecOK(e, FALSE))
+      [] e.ev = "BigShape"  -> (CASE Prop = "C01" -> BigEncOK(e) /\ BigDecOK(e, FALSE)
+                                  [] Prop = "C10" -> BigEncOK(e)             \* the header an independent reader sees
+                                  [] Prop = "C09" -> e.enc.k = "ok"
+                                  [] OTHER -> TRUE)
       [] e.ev = "LensHuge"  -> (Prop = "C02" => (e.body_hi > 0 => IsErrE(e.encode_len, "InvalidVarByteInt")))
       [] e.ev = "Enc"       -> (CASE Prop = "C09" -> OK09(e) [] Prop = "C10" -> OK10(e) [] OTHER -> TRUE)
       [] e.ev = "Coverage"  -> (Prop = "C10" => CoverageOK(e))
